@@ -679,12 +679,9 @@ class Polygon(Shape2D):
 
         q_nonzero_broadcast = q[np.newaxis, ~zero_q, :]
         edges_cross_qs = np.cross(edges[:, np.newaxis, :], q_nonzero_broadcast)
-        # Due to oddities of numpy broadcasting, many singleton dimensions can persist
-        # and must be squeezed out.
-        midpoints_dot_qs = np.inner(
-            midpoints[:, np.newaxis, :], q_nonzero_broadcast
-        ).squeeze()
-        edges_dot_qs = np.inner(edges[:, np.newaxis, :], q_nonzero_broadcast).squeeze()
+        # Shape (N_edges, N_q), also when there is a single edge or a single q.
+        midpoints_dot_qs = np.dot(midpoints, q[~zero_q].T)
+        edges_dot_qs = np.dot(edges, q[~zero_q].T)
         f_ns = (
             np.dot(edges_cross_qs, self.normal)
             # Note that np.sinc(x) gives sin(pi*x)/(pi*x)
